@@ -77,6 +77,14 @@ var selfMutants = []selfMutant{
 	{Rule: "R-JSONKEY", File: "json/parse.go", Old: "	} else if c == '[' && state != ObjectKeyState {", New: "	} else if c == '[' {", Why: "array accepted in object-key position"},
 	{Rule: "R-BEGINEND", File: "css/parse.go", Old: "		p.state = p.state[:len(p.state)-1]\n		p.keepWS = false\n		return EndAtRuleGrammar", New: "		p.state = p.state[:len(p.state)-1]\n		p.keepWS = false\n		return EndRulesetGrammar", Why: "wrong End unit after pop"},
 	{Rule: "R-EOFNEST", File: "css/parse.go", Only: "cssparser", Old: "		if tt, data := p.popToken(false); tt != ErrorToken {\n			p.tt = tt\n			p.data = append(p.data, data...)\n		}", New: "		tt, data := p.popToken(false)\n		p.tt = tt\n		p.data = append(p.data, data...)", Why: "end of input merged into the '*' hack"},
+	// bounds engine
+	{Rule: "R-BOUNDS", File: "common.go", Old: "		if i >= len(b) || b[i] < '0' || b[i] > '9' {", New: "		if i > len(b) || b[i] < '0' || b[i] > '9' {", Props: []string{"C16"}, Why: "Number reads one byte past the exponent sign"},
+	{Rule: "R-BOUNDS", File: "common.go", Old: "	if num == 0 || num == len(b) {", New: "	if num == 0 {", Props: []string{"C16"}, Why: "Dimension indexes the byte after a number that spans the argument"},
+	{Rule: "R-BOUNDS", File: "common.go", Old: "	for i := 3; i < n; i++ { // mimetype", New: "	for i := 3; i <= n; i++ { // mimetype", Props: []string{"C16"}, Why: "Mediatype scans one byte too far"},
+	{Rule: "R-BOUNDS", File: "common.go", Old: "		if b[i] == '%' && i+2 < len(b) {", New: "		if b[i] == '%' && i+1 < len(b) {", Props: []string{"C16"}, Why: "DecodeURL reads the second hex digit past the end"},
+	{Rule: "R-BOUNDS", File: "strconv/float.go", Old: "	} else if -22 <= exp && exp < 0 { // int / 10^k\n		return f / float64pow10[-exp], i\n	}\n	if f == 0.0 {", New: "	} else if -23 <= exp && exp < 0 { // int / 10^k\n		return f / float64pow10[-exp], i\n	}\n	if f == 0.0 {", Props: []string{"C14"}, Why: "power-of-ten table indexed at 23"},
+	{Rule: "R-BOUNDS", File: "strconv/int.go", Old: "	for i < len(b) {\n		c := b[i]\n		if '0' <= c && c <= '9' {\n			if uint64(-math.MinInt64)", New: "	for i <= len(b) {\n		c := b[i]\n		if '0' <= c && c <= '9' {\n			if uint64(-math.MinInt64)", Props: []string{"C14"}, Why: "ParseInt reads past the end"},
+	{Rule: "R-BOUNDS", File: "position.go", Old: "		if col <= limit-offset {", New: "		if col < offset {", Props: []string{"C15"}, Why: "context window may start before the line"},
 	// engine rules
 	{Rule: "R-CURSOR", File: "css/lex.go", Only: "css", Old: "		if c == 0 && l.r.Err() != nil {\n			break\n		} else if c == '\\n' || c == '\\r' || c == '\\f' {", New: "		if c == '\\n' || c == '\\r' || c == '\\f' {", Why: "string scanner no longer stops at the end of input"},
 	{Rule: "R-CURSOR", File: "html/lex.go", Only: "html", Old: "			l.text = l.r.Lexeme()[2:]\n			l.r.Move(1)\n			return l.r.Shift()", New: "			l.text = l.r.Lexeme()[3:]\n			l.r.Move(1)\n			return l.r.Shift()", Why: "comment text sliced beyond a 2-byte token"},
